@@ -4,13 +4,14 @@ C3 / annotated Python).  All randomness comes from the rng passed in.
 
 Types (names used in the AST): c8 u8 i16 u16 i32 u32 i64 u64 (C: signed char,
 unsigned char, short, unsigned short, int, unsigned int, long long, unsigned
-long long).  Expressions carry no computed types: typing (promotions, usual
+long long) and, only when asked for (TYPES10), il ul (long, unsigned long; 64 bits: LP64).  Expressions carry no computed types: typing (promotions, usual
 arithmetic conversions) is the specification's business.
 
 AST
  program   {"globals":[gdecl], "externs":[{"n","ret":T,"args":[T]}], "funcs":[func], "main": name}
  gdecl     {"n", "ty":T, "len":0|N, "init":[ints]}            (len>0: array)
-           {"n", "struct":[{"f","ty"}], "init":[ints]}         (one struct object)
+           {"n", "struct":[{"f","ty"} | {"anon":[{"f","ty"}]}], "init":[ints]}   (one struct object; "anon" = anonymous
+                                                                 struct member, its fields are accessed as s.f; init in declaration order)
  func      {"n","ret":T,"params":[{"n","ty"}],"body":[stmt]}
  stmt      {"k":"decl","n","ty","e"} | {"k":"declarr","n","ty","len","init":[ints]}
            {"k":"asg","lhs":lv,"op":"="|"+="|...,"e"} | {"k":"inc","lhs":lv,"op":"++"|"--"}
@@ -28,10 +29,20 @@ gcc), sanitize (the same program without given construct classes), DEFAULT_FEATU
 """
 
 TYPES = ["c8", "u8", "i16", "u16", "i32", "u32", "i64", "u64"]
-BITS = {"c8": 8, "u8": 8, "i16": 16, "u16": 16, "i32": 32, "u32": 32, "i64": 64, "u64": 64}
+TYPES10 = TYPES + ["il", "ul"]       # with long / unsigned long (LP64 targets only; used by the C01 engine)
+BITS = {"c8": 8, "u8": 8, "i16": 16, "u16": 16, "i32": 32, "u32": 32, "i64": 64, "u64": 64, "il": 64, "ul": 64}
 CNAME = {"c8": "signed char", "u8": "unsigned char", "i16": "short", "u16": "unsigned short",
-         "i32": "int", "u32": "unsigned int", "i64": "long long", "u64": "unsigned long long"}
-SUFFIX = {"i32": "", "u32": "u", "i64": "ll", "u64": "ull"}
+         "i32": "int", "u32": "unsigned int", "i64": "long long", "u64": "unsigned long long",
+         "il": "long", "ul": "unsigned long"}
+SUFFIX = {"i32": "", "u32": "u", "i64": "ll", "u64": "ull", "il": "l", "ul": "ul"}
+
+
+def flat_fields(g):
+    """The members of a struct global in declaration order, anonymous struct members flattened."""
+    out = []
+    for f in g["struct"]:
+        out += f["anon"] if "anon" in f else [f]
+    return out
 
 
 def is_signed(t):
@@ -54,7 +65,8 @@ def trange(t):
 #                globals / pass them to external calls, so that a wrong intermediate value reaches the observation
 DEFAULT_FEATURES = {"arrays", "structs", "pointers", "switch", "calls", "extern", "loops",
                     "shortcircuit", "cond", "casts", "compound", "div", "shift", "sinks"}
-C01_FEATURES = DEFAULT_FEATURES | {"safe_narrow", "call_stmts"}
+#   anonstruct   struct globals get an anonymous struct member (not the first one)
+C01_FEATURES = DEFAULT_FEATURES | {"safe_narrow", "call_stmts", "anonstruct"}
 
 
 class Gen:
@@ -91,12 +103,12 @@ class Gen:
             return [g for g in self.globals + self.local_arrays if g["n"] == lv["a"]][0]["ty"]
         if k == "fld":
             g = [g for g in self.globals if g["n"] == lv["s"]][0]
-            return [f for f in g["struct"] if f["f"] == lv["f"]][0]["ty"]
+            return [f for f in flat_fields(g) if f["f"] == lv["f"]][0]["ty"]
         return self.ptrs[0]["ty"]
 
     def lit(self, ty=None):
         r = self.r
-        ty = ty or r.choice([t for t in ("i32", "i32", "u32", "i64", "u64") if t in self.types or t == "i32"])
+        ty = ty or r.choice([t for t in ("i32", "i32", "u32", "i64", "u64", "il", "ul") if t in self.types or t == "i32"])
         lo, hi = trange(ty)
         c = r.random()
         if c < 0.6:
@@ -129,7 +141,20 @@ class Gen:
                                      "init": [r.randrange(max(lo, -20), min(hi, 60)) for _ in range(n)]})
         if "structs" in self.feat and r.random() < 0.6:
             fl = [{"f": "m%d" % k, "ty": self.pick_type()} for k in range(r.randrange(2, 5))]
-            self.globals.append({"n": self.name("s"), "struct": fl, "init": [r.randrange(0, 50) for _ in fl]})
+            if "anonstruct" in self.feat and r.random() < 0.7:
+                # an anonymous struct member, never the first; u8 fillers make its size a multiple of its alignment
+                inner = [{"f": "n%d" % k, "ty": self.pick_type()} for k in range(r.randrange(1, 4))]
+                al = max(BITS[f["ty"]] for f in inner) // 8
+                off = 0
+                for f in inner:
+                    n = BITS[f["ty"]] // 8
+                    off = (off + n - 1) // n * n + n
+                for k in range((-off) % al):
+                    inner.append({"f": "z%d" % k, "ty": "u8"})
+                fl.insert(r.randrange(1, len(fl) + 1), {"anon": inner})
+            g = {"n": self.name("s"), "struct": fl}
+            g["init"] = [r.randrange(0, 50) for _ in flat_fields(g)]
+            self.globals.append(g)
         if "extern" in self.feat and r.random() < 0.7:
             self.externs.append({"n": "ext_a", "ret": "i32", "args": ["i32"]})
             if r.random() < 0.5:
@@ -218,7 +243,7 @@ class Gen:
             return {"k": "idx", "a": a["n"], "e": self.index_expr(a["len"], depth)}
         if c == "fld":
             s = r.choice(ss)
-            return {"k": "fld", "s": s["n"], "f": r.choice(s["struct"])["f"]}
+            return {"k": "fld", "s": s["n"], "f": r.choice(flat_fields(s))["f"]}
         p = self.ptrs[0]
         return {"k": "deref", "p": p["n"], "e": self.index_expr(p["len"], depth)}
 
@@ -277,7 +302,7 @@ class Gen:
             gl = []
             for g in self.globals:
                 if "struct" in g:
-                    gl += [({"k": "fld", "s": g["n"], "f": f["f"]}, f["ty"]) for f in g["struct"]]
+                    gl += [({"k": "fld", "s": g["n"], "f": f["f"]}, f["ty"]) for f in flat_fields(g)]
                 elif g.get("len"):
                     gl.append(({"k": "idx", "a": g["n"], "e": {"k": "lit", "ty": "i32", "v": r.randrange(g["len"])}}, g["ty"]))
                 else:
@@ -476,7 +501,7 @@ class Gen:
             return {"k": "idx", "a": a["n"], "e": self.index_expr(a["len"], 1)}
         if c == "fld":
             s = r.choice(ss)
-            return {"k": "fld", "s": s["n"], "f": r.choice(s["struct"])["f"]}
+            return {"k": "fld", "s": s["n"], "f": r.choice(flat_fields(s))["f"]}
         p = self.ptrs[0]
         return {"k": "deref", "p": p["n"], "e": self.index_expr(p["len"], 1)}
 
@@ -577,8 +602,18 @@ def render_c(prog):
     out = []
     for g in prog["globals"]:
         if "struct" in g:
-            out.append("struct S_%s { %s };" % (g["n"], " ".join("%s %s;" % (CNAME[f["ty"]], f["f"]) for f in g["struct"])))
-            out.append("struct S_%s %s = {%s};" % (g["n"], g["n"], ", ".join(map(str, g["init"]))))
+            mem, ini, k = [], [], 0
+            for f in g["struct"]:
+                if "anon" in f:
+                    mem.append("struct { %s };" % " ".join("%s %s;" % (CNAME[x["ty"]], x["f"]) for x in f["anon"]))
+                    ini.append("{%s}" % ", ".join(map(str, g["init"][k:k + len(f["anon"])])))
+                    k += len(f["anon"])
+                else:
+                    mem.append("%s %s;" % (CNAME[f["ty"]], f["f"]))
+                    ini += [str(v) for v in g["init"][k:k + 1]]
+                    k += 1
+            out.append("struct S_%s { %s };" % (g["n"], " ".join(mem)))
+            out.append("struct S_%s %s = {%s};" % (g["n"], g["n"], ", ".join(ini)))
         elif g["len"]:
             out.append("%s %s[%d] = {%s};" % (CNAME[g["ty"]], g["n"], g["len"], ", ".join(map(str, g["init"]))))
         else:
@@ -690,7 +725,11 @@ def to_src(prog):
     gl = []
     for g in prog["globals"]:
         if "struct" in g:
-            gl.append({"n": g["n"], "gk": "st", "struct": [{"f": f["f"], "ty": f["ty"]} for f in g["struct"]],
+            def plain(f):
+                return {"f": f["f"], "ty": f["ty"], "anon": False, "sub": []}
+            gl.append({"n": g["n"], "gk": "st",
+                       "struct": [{"f": "", "ty": "", "anon": True, "sub": [plain(x) for x in f["anon"]]} if "anon" in f else plain(f)
+                                  for f in g["struct"]],
                        "init": [word(v) for v in g["init"]]})
         elif g.get("len"):
             gl.append({"n": g["n"], "gk": "a", "ty": g["ty"], "len": g["len"], "init": [word(v) for v in g["init"]]})
@@ -757,7 +796,7 @@ def render_gcc_main(prog, f, vecs, ext):
     out.append("  }")
     for g in prog["globals"]:
         if "struct" in g:
-            for m in g["struct"]:
+            for m in flat_fields(g):
                 out.append("  " + _pr("G %s.%s" % (g["n"], m["f"]), "%s.%s" % (g["n"], m["f"]), m["ty"]))
         elif g.get("len"):
             for j in range(g["len"]):
